@@ -274,6 +274,29 @@ class C17(Prop):
             kid_ops.append("SCRIPT g %s" % text_hex("BIND(0, 1, %s);" % name))
             kid_ops.append("KID g 0 %s" % lab)
         hs.append(History("c17-kid", 8, kid_ops))
+        # distinct names stay distinct inside a graph: two edges bound under two different valid names (one may be a
+        # prefix of the other, a one-character name next to a longer one, an index next to a longer index) are two
+        # edges, each found under its own name, in both binding orders, bound by value and bound from script text
+        names = ["ab", "abc", "x1", "x12", "foo", "foo-bar", "1234567", "12345678", "a", "b", "ρ", "ρρ", "α1", "α12",
+                 "héllo", "héll", "\U0001d711", "\U0001d711x"]
+
+        def lab_of(t):
+            if t[0] == "α":
+                return gen.lab_alpha(int(t[1:]))
+            return gen.lab_greek(ord(t)) if len(t) == 1 else gen.lab_str(t)
+        k = 0
+        for t1 in names:
+            for t2 in names:
+                if t1 == t2:
+                    continue
+                l1, l2 = lab_of(t1), lab_of(t2)
+                by_script = (k % 2 == 0)
+                b1 = "SCRIPT g %s" % text_hex("BIND(0, 1, %s);" % t1) if by_script else "BIND g 0 1 %s" % l1
+                b2 = "SCRIPT g %s" % text_hex("BIND(0, 2, %s);" % t2) if by_script else "BIND g 0 2 %s" % l2
+                hs.append(History("c17-pair%d" % k, 4, ["NEW g 4", "ADD g 0", "ADD g 1", "ADD g 2", b1, b2,
+                                                        "KID g 0 %s" % l1, "KID g 0 %s" % l2, "KIDS g 0"],
+                                  {"pair": (l1, l2)}))
+                k += 1
         return hs
 
     def oracle(self, h, il):
@@ -302,6 +325,16 @@ class C17(Prop):
                 if len(p) != 3 or p[1] != "ok" or p[2] != t[1]:
                     return {"reason": "canonical label %s does not round-trip through text" % t[1], "index": i,
                             "expected": "<text> ok %s" % t[1], "observed": res}
+            elif t[0] == "KID" and "pair" in h.meta:
+                want = "some 1" if t[3] == h.meta["pair"][0] else "some 2"
+                if res != want:
+                    return {"reason": "two edges bound under the distinct names %s and %s: kid under %s gives %s" % (
+                        h.meta["pair"][0], h.meta["pair"][1], t[3], res), "index": i, "expected": want, "observed": res}
+            elif t[0] == "KIDS" and "pair" in h.meta:
+                want = "[%s>1;%s>2]" % h.meta["pair"]
+                if res != want:
+                    return {"reason": "two edges bound under distinct names are not two entries of kids()", "index": i,
+                            "expected": want, "observed": res}
             elif t[0] == "KID" and h.hid == "c17-kid":
                 if res != "some 1":
                     return {"reason": "edge bound under a parsed name is not found under the constructed label %s" % t[3],
@@ -368,7 +401,9 @@ def usz(x):
 class C15(Prop):
     pid = "C15"
     ops = {"HEXALL", "HEXIDX", "HEXBYTEAT", "HEXTAIL", "HEXRANGE", "HEXEQ", "HEXFROMI64", "HEXFROMF64",
-           "HEXFROMSTR", "HEXFROMVEC", "HEXFROMSLICE"}
+           "HEXFROMSTR", "HEXFROMVEC", "HEXFROMSLICE",
+           # the rest of the Hex API (HexMore.v): outside the property text, compared with the model and a byte-level oracle
+           "HEXSET", "HEXSTRBYTES", "HEXTOBOOL", "HEXTOUTF8", "HEXFROMINT", "HEXFROMF32", "HEXFROMBOOL"}
     stay_in_limits = False
     exhaustive = True
     rule = ("byte strings of every length 0..10 (fixed and random content) in the heap representation and, up to 8 "
@@ -418,12 +453,29 @@ class C15(Prop):
             ops.append("HEXFROMSTR %s" % text_hex(txt))
             ops.append("HEXFROMVEC %s" % (bs.hex() or "-"))
             ops.append("HEXFROMSLICE %s" % (bs.hex() or "-"))
+        # the remaining API of Hex
+        for sh in shapes:
+            for i in idxs[:11]:
+                ops.append("HEXSET %s %s %02x" % (sh, usz(i), rng.below(256)))
+            ops.append("HEXTOBOOL %s" % sh)
+            ops.append("HEXTOUTF8 %s" % sh)
+        for txt in ["", "a", "héllo", "ρσ", "\U0001d711x", "abcdefgh", "abcdefghi", "привет"]:
+            ops.append("HEXSTRBYTES %s" % text_hex(txt))
+            ops.append("HEXTOUTF8 V%s" % txt.encode("utf-8").hex())
+        for bad in ["c3", "e28282e2", "f0288cbc", "eda080", "c0af", "ff", "41c328"]:
+            ops.append("HEXTOUTF8 V%s" % bad)
+        for k, lo, hi in [(4, -2 ** 31, 2 ** 31 - 1), (2, -2 ** 15, 2 ** 15 - 1), (1, -128, 127)]:
+            for z in [0, 1, -1, lo, hi, 42] + [lo + rng.below(hi - lo + 1) for _ in range(40)]:
+                ops.append("HEXFROMINT %d %d" % (k, z))
+        for w in [0, 1, 0x7f800000, 0xff800000, 0x7fc00001, 0x40490fdb, 2 ** 32 - 1] + [rng.below(2 ** 32) for _ in range(40)]:
+            ops.append("HEXFROMF32 %08x" % w)
+        ops += ["HEXFROMBOOL 0", "HEXFROMBOOL 1"]
         return batches(ops, 3000, "c15-")
 
     def expected(self, t):
         """expected result text from the byte string alone, or None (no claim)"""
         k = t[0]
-        if k in ("HEXFROMI64", "HEXFROMF64", "HEXFROMSTR", "HEXFROMVEC", "HEXFROMSLICE"):
+        if k in ("HEXFROMI64", "HEXFROMF64", "HEXFROMSTR", "HEXFROMVEC", "HEXFROMSLICE") and True:
             if k == "HEXFROMI64":
                 z = int(t[1])
                 return "B%s:8 back=%d" % ((z % 2 ** 64).to_bytes(8, "big").hex(), z)
@@ -441,8 +493,29 @@ class C15(Prop):
                 return "ok " + hx_from_vec(bs)
             bs = bytes.fromhex("" if t[1] == "-" else t[1])
             return hx_from_vec(bs)
+        if k == "HEXSTRBYTES":
+            return hx_from_vec(hex_text(t[1]).encode("utf-8"))
+        if k == "HEXFROMINT":
+            return hx_from_vec(int(t[2]).to_bytes(int(t[1]), "big", signed=True))
+        if k == "HEXFROMF32":
+            return hx_from_vec(bytes.fromhex(t[1]))
+        if k == "HEXFROMBOOL":
+            return hx_from_vec(bytes([int(t[1])]))
         bs = hx_bytes(t[1])
         arg = lambda s: USIZE_MAX if s == "MAX" else int(s)
+        if k == "HEXSET":
+            i = arg(t[2])
+            if i >= len(bs):
+                return "PANIC"
+            nb = bs[:i] + bytes([int(t[3], 16)]) + bs[i + 1:]
+            return None if t[1].startswith("B") else "V" + nb.hex()     # inline: padding is kept, compared with the model only
+        if k == "HEXTOBOOL":
+            return "PANIC" if not bs else ("1" if bs[0] == 1 else "0")
+        if k == "HEXTOUTF8":
+            try:
+                return "ok " + text_hex(bs.decode("utf-8"))
+            except UnicodeDecodeError:
+                return "err"
         if k == "HEXALL":
             pr = "-".join("%02X" % b for b in bs) if bs else "--"
             i64 = str(int.from_bytes(bs, "big", signed=True)) if len(bs) == 8 else "err"
